@@ -131,6 +131,14 @@ def check_C10(res, tier, seed, replay):
             n = rng.randint(1, 6)
             es = [(rng.randrange(n), rng.randrange(n), rng.choice([-2, -1, 0, 1, 2, 5])) for _ in range(rng.randint(0, 8))]
             script.append(vlib.graph_line(0, n, es, rng.choice([1, 2, 4])))
+        # the validators decide by SIGN: magnitudes far below 1 (1e-12 ... denormal) and far above must not matter
+        for _ in range(120 if tier == 'quick' else 1500):
+            n = rng.randint(2, 6)
+            es = [(rng.randrange(n), rng.randrange(n), rng.choice([-3, -1, 0, 1, 1, 2, 7])) for _ in range(rng.randint(1, 7))]
+            den_ = rng.choice([1, 3, 10 ** 17, 9 * 10 ** 18])
+            # (kept above the smallest denormal, 4.9e-324, so that a non-zero w never becomes 0)
+            exps = [0, -12, -16, -17, -20, -100, -300, -320, 30, 200] if den_ <= 3 else [0, -12, -16, -17, -20, -100, -300, 30, 200]
+            script.append(vlib.graph_line(0, n, es, den_, extra=['exp10=%d' % rng.choice(exps)]))
         import p_vec
         trace, ev, v = p_vec.run_script(res, exe, wd, 'dimacs', script, 'Trace_Dimacs', 'Trace_Dimacs.cfg', None, by_history=False)
         res.add_validation(v, len(script))
